@@ -4,7 +4,7 @@
 # rewrite the patch as the diff against HEAD.  Patches that conflict are listed and left alone.
 W=$(mktemp -d /tmp/mtv_rebase.XXXXXX)
 git -C /repo worktree add -q --detach $W HEAD || exit 2
-for p in $(find /verif/seeded /verif/mutants -name '*.diff' | sort); do
+for p in $(find /verif/seeded /verif/mutants \( -name '*.diff' -o -name '*.patch' \) | sort); do
   git -C $W checkout -q -- . ; git -C $W reset -q --hard HEAD
   if git -C $W apply --check $p 2>/dev/null; then continue; fi
   if git -C $W apply --3way $p >/dev/null 2>&1 && ! git -C $W diff --name-only --diff-filter=U | grep -q .; then
